@@ -12,6 +12,7 @@ import (
 	"fmt"
 	"runtime"
 	"strings"
+	"sync/atomic"
 	"time"
 
 	"github.com/blinklabs-io/gouroboros/protocol"
@@ -248,7 +249,9 @@ func (x *c11Run) drain() {
 				x.ended = true
 				return
 			}
-			if _, g := x.settled(func(r *evRec) bool { return r.kind == "handled" || r.kind == "error" }); !g {
+			// (searched in the whole log by message: a handler that ran before the transition
+			// is reported by checkTrace and must not stall the script)
+			if _, _, g := x.e.waitFrom(0, func(r *evRec) bool { return (r.kind == "handled" && r.msg == ev.msg) || r.kind == "error" }); !g {
 				x.inconclusive = "accepted message was not handled within the watchdog"
 				return
 			}
@@ -290,15 +293,26 @@ func (x *c11Run) afterRejection(key string) {
 			break
 		}
 	}
+	// Stop() is called by the goroutine that reported the error, right after it
+	// (it logs a stop event). No stop event over a long quiescence window = the
+	// protocol did not stop; a stop event without DoneChan closing = inconclusive.
+	window := stopWindow
+	if stopBroken.Load() {
+		window = 200 * time.Millisecond // (only after the verdict was reached once: keeps a broken tree's run short)
+	}
+	quiet := time.NewTimer(window)
+	defer quiet.Stop()
 	t := time.NewTimer(watchdog)
 	defer t.Stop()
 	for {
-		late := false
-		seenErr := false
+		late, seenErr, stopped := false, false, false
 		for _, r := range x.e.snapshot() {
-			if r.kind == "error" {
+			switch {
+			case r.kind == "error":
 				seenErr = true
-			} else if r.kind == "deliver" && seenErr {
+			case r.kind == "stop":
+				stopped = true
+			case r.kind == "deliver" && seenErr:
 				late = true
 			}
 		}
@@ -314,12 +328,23 @@ func (x *c11Run) afterRejection(key string) {
 			}
 			return
 		case <-x.e.wake:
+		case <-quiet.C:
+			if !stopped {
+				stopBroken.Store(true)
+				x.fail("C11:stop:not-stopped-after-error", fmt.Sprintf("after rejecting %s the protocol reported the error but did not stop (no stop event, DoneChan open) over a quiescence window of %v", key, window))
+				return
+			}
 		case <-t.C:
 			x.inconclusive = fmt.Sprintf("after rejecting %s the protocol's DoneChan did not close within the watchdog; trace %v", key, clipTrace(x.e.trace(), 30))
 			return
 		}
 	}
 }
+
+// stopWindow: quiescence window for "reported an error but never stopped".
+const stopWindow = 10 * time.Second
+
+var stopBroken atomic.Bool
 
 // freshCtxFrom: a throw-away copy of the model context (evaluating a MatchFunc
 // for a message that is never sent must not disturb the model).
